@@ -35,7 +35,7 @@ fn raw_bytes(lines: &[Vec<u8>]) -> Vec<u8> {
 }
 
 /// (bytes, class tag) of a bad request with the given id
-fn bad_request(g: &mut Rng, id: &str) -> (Vec<u8>, String) {
+pub fn bad_request(g: &mut Rng, id: &str) -> (Vec<u8>, String) {
     let idl = format!("X-Id: {}", id);
     match g.below(7) {
         0 => {
@@ -143,6 +143,9 @@ impl Campaign for C10c {
         }
     }
     fn generate(&self, rng: &mut Rng, index: u64, _tier: Tier) -> Scenario {
+        if index % 5 == 4 {
+            return super::universal::gen_universal(rng, index, true);
+        }
         let mut sc = Scenario::new();
         common_knobs(rng, &mut sc);
         let mut g = rng.sub("scenario");
@@ -168,6 +171,9 @@ impl Campaign for C10c {
         sc
     }
     fn check(&self, sc: &Scenario, out: &RunOut) -> Verdict {
+        if sc.note.starts_with("universal") {
+            return super::universal::universal_verdict("C10", sc, out);
+        }
         let mut v = Verdict::default();
         let class = sc.note.split("class=").nth(1).and_then(|s| s.split(' ').next()).unwrap_or("?").to_string();
         for ci in 0..sc.conns.len() {
@@ -207,7 +213,7 @@ impl Campaign for C10c {
 
 // ---------------------------------------------------------------------------
 
-fn smuggle_request(g: &mut Rng, id: &str, smuggled_id: &str) -> (Vec<u8>, String) {
+pub fn smuggle_request(g: &mut Rng, id: &str, smuggled_id: &str) -> (Vec<u8>, String) {
     let inner = Req::get(smuggled_id).bytes();
     let idl = format!("X-Id: {}", id);
     let ws = *g.pick(&[" ", "\t", "  "]);
@@ -344,6 +350,9 @@ impl Campaign for C12c {
         }
     }
     fn generate(&self, rng: &mut Rng, index: u64, _tier: Tier) -> Scenario {
+        if index % 5 == 4 {
+            return super::universal::gen_universal(rng, index, false);
+        }
         let mut sc = Scenario::new();
         common_knobs(rng, &mut sc);
         let mut g = rng.sub("scenario");
@@ -388,6 +397,9 @@ impl Campaign for C12c {
         sc
     }
     fn check(&self, sc: &Scenario, out: &RunOut) -> Verdict {
+        if sc.note.starts_with("universal") {
+            return super::universal::universal_verdict("C12", sc, out);
+        }
         let mut v = Verdict::default();
         let (e, discs) = compare(sc, out, 0);
         let main = snap(out, "main").unwrap();
